@@ -64,6 +64,53 @@ impl<K: KeyT, V: ValT> World<K, V> {
                 }
                 self.finish(op, &meta, json!({"t":"unit"}), vec![])
             }
+            "NewDflt" => {
+                // the default-hasher constructors (`new`, `with_capacity`) only exist for S = DefaultHashBuilder, so
+                // they cannot produce a map for a slot: exercised on a throw-away u32 collection, the C10 sentence
+                // about with_capacity executed (capacity() >= n, n insertions without reallocation)
+                let cap = usize_arg(op, "cap").min(4096);
+                let set = op.get("ty").and_then(|x| x.as_str()) == Some("set");
+                let mut res = json!({"t":"panic"});
+                let meta;
+                if set {
+                    let (r1, m1) = measure(|| if cap == 0 { griddle::HashSet::<u32>::new() } else { griddle::HashSet::<u32>::with_capacity(cap) });
+                    if let Some(mut m) = r1 {
+                        let cap0 = m.capacity();
+                        let (r2, m2) = measure(|| {
+                            for i in 0..cap {
+                                m.insert(i as u32);
+                            }
+                            (m.len(), m.capacity(), (0..cap).all(|i| m.contains(&(i as u32))))
+                        });
+                        if let Some((len, cap1, all)) = r2 {
+                            res = json!({"t":"newd","cap0":cap0,"len":len,"cap1":cap1,"al0":m1.cost.al,"al1":m2.cost.al,"all":all as u32});
+                        }
+                        drop(m);
+                        meta = m2;
+                    } else {
+                        meta = m1;
+                    }
+                } else {
+                    let (r1, m1) = measure(|| if cap == 0 { griddle::HashMap::<u32, u32>::new() } else { griddle::HashMap::<u32, u32>::with_capacity(cap) });
+                    if let Some(mut m) = r1 {
+                        let cap0 = m.capacity();
+                        let (r2, m2) = measure(|| {
+                            for i in 0..cap {
+                                m.insert(i as u32, i as u32 + 1);
+                            }
+                            (m.len(), m.capacity(), (0..cap).all(|i| m.get(&(i as u32)) == Some(&(i as u32 + 1))))
+                        });
+                        if let Some((len, cap1, all)) = r2 {
+                            res = json!({"t":"newd","cap0":cap0,"len":len,"cap1":cap1,"al0":m1.cost.al,"al1":m2.cost.al,"all":all as u32});
+                        }
+                        drop(m);
+                        meta = m2;
+                    } else {
+                        meta = m1;
+                    }
+                }
+                self.finish(op, &meta, res, vec![("ncap", json!(cap))])
+            }
             "Insert" => {
                 let k = K::new(u(op, "k"));
                 let v = V::new(u(op, "v"));
@@ -713,15 +760,25 @@ impl<K: KeyT, V: ValT> World<K, V> {
                 };
                 let is_map = self.is_map(s);
                 let mut ids: Vec<Value> = Vec::new();
+                // Copy element types: every other call goes through `Extend<(&K, &V)>` / `Extend<&T>` (same
+                // contract: the map ends up holding copies)
+                self.ext_ctr += 1;
+                let by_ref = matches!(K::NAME, "plain" | "fat") && self.ext_ctr % 2 == 0;
+                let mut used_ref = false;
                 let (_, meta) = if is_map {
                     let objs: Vec<(K, V)> = items.iter().map(|&(k, v)| (K::new(k), V::new(v))).collect();
                     for (k, v) in &objs {
                         ids.push(json!([k.k(), v.v(), k.id(), v.id()]));
                     }
                     let map = self.map(s);
+                    let ur = &mut used_ref;
                     measure(|| {
                         armf();
-                        map.extend(Hinted { it: objs.into_iter(), hint })
+                        if by_ref && extend_map_by_ref(map, &objs, hint) {
+                            *ur = true;
+                        } else {
+                            map.extend(Hinted { it: objs.into_iter(), hint })
+                        }
                     })
                 } else {
                     let objs: Vec<K> = items.iter().map(|&(k, _)| K::new(k)).collect();
@@ -729,12 +786,17 @@ impl<K: KeyT, V: ValT> World<K, V> {
                         ids.push(json!([k.k(), 0, k.id(), 0]));
                     }
                     let set = self.set(s);
+                    let ur = &mut used_ref;
                     measure(|| {
                         armf();
-                        set.extend(Hinted { it: objs.into_iter(), hint })
+                        if by_ref && extend_set_by_ref(set, &objs, hint) {
+                            *ur = true;
+                        } else {
+                            set.extend(Hinted { it: objs.into_iter(), hint })
+                        }
                     })
                 };
-                self.finish(op, &meta, json!({"t":"unit"}), vec![("objs", Value::Array(ids))])
+                self.finish(op, &meta, json!({"t":"unit"}), vec![("objs", Value::Array(ids)), ("by_ref", json!(used_ref as u32))])
             }
             "Probe" => {
                 // C04's own sentence, executed: insert capacity()-len() previously unseen keys
@@ -1404,6 +1466,39 @@ impl<K: KeyT, V: ValT> World<K, V> {
             vec![("ids", Value::Array(ids)), ("obs", Value::Array(obs)), ("unused", Value::Array(unused))],
         )
     }
+}
+
+/// `Extend<(&K, &V)>` (only exists for Copy keys and values): reached through `Any` from the generic driver.
+fn extend_map_by_ref<K: KeyT, V: ValT>(map: &mut griddle::HashMap<K, V, HB>, objs: &Vec<(K, V)>, hint: usize) -> bool {
+    use std::any::Any;
+    macro_rules! try_ty {
+        ($k:ty, $v:ty) => {
+            if let Some(m) = (map as &mut dyn Any).downcast_mut::<griddle::HashMap<$k, $v, HB>>() {
+                let o = (objs as &dyn Any).downcast_ref::<Vec<($k, $v)>>().unwrap();
+                m.extend(Hinted { it: o.iter().map(|(k, v)| (k, v)), hint });
+                return true;
+            }
+        };
+    }
+    try_ty!(PK, PV);
+    try_ty!(FK, FV);
+    false
+}
+/// `Extend<&T>` for sets of Copy elements.
+fn extend_set_by_ref<K: KeyT>(set: &mut griddle::HashSet<K, HB>, objs: &Vec<K>, hint: usize) -> bool {
+    use std::any::Any;
+    macro_rules! try_ty {
+        ($k:ty) => {
+            if let Some(m) = (set as &mut dyn Any).downcast_mut::<griddle::HashSet<$k, HB>>() {
+                let o = (objs as &dyn Any).downcast_ref::<Vec<$k>>().unwrap();
+                m.extend(Hinted { it: o.iter(), hint });
+                return true;
+            }
+        };
+    }
+    try_ty!(PK);
+    try_ty!(FK);
+    false
 }
 
 /// An iterator wrapper with a chosen lower size hint.
